@@ -61,7 +61,7 @@ func main() {
 			if len(os.Args) > 2 && os.Args[2] != pr.name {
 				continue
 			}
-			diff, n, why := sibCompare(pr.a, pr.b, sibNorm{[]string{modPath + "/benchfmt/internal/bytesconv"}}, sibNorm{[]string{"strconv"}}, 20000)
+			diff, n, why := sibCompare(pr.a, pr.b, sibNorm{pkgPaths: []string{modPath + "/benchfmt/internal/bytesconv"}}, sibNorm{pkgPaths: []string{"strconv"}}, 20000)
 			switch {
 			case why != "":
 				fmt.Printf("%-28s UNDECIDED %s\n", pr.name, why)
@@ -71,7 +71,7 @@ func main() {
 				fmt.Printf("%-28s agree (%d records)\n", pr.name, n)
 			}
 			if len(os.Args) > 3 {
-				ta, _ := sibTables(pr.a, sibNorm{[]string{modPath + "/benchfmt/internal/bytesconv"}}, 20000)
+				ta, _ := sibTables(pr.a, sibNorm{pkgPaths: []string{modPath + "/benchfmt/internal/bytesconv"}}, 20000)
 				for k, rs := range ta {
 					for _, r := range rs {
 						fmt.Println("  A", k, r)
